@@ -8,6 +8,8 @@
 (*                   used: set of files].  Step(env, op) is a pure function; a snapshot is  *)
 (*            a copy of Env; set_state replaces Env by the copy.  This is the dictionary    *)
 (*            model the property speaks about, used as executable reference in mode G.      *)
+(*            ty is observed in both directions: name -> type (type("TA")) and object ->    *)
+(*            name (type_name(obj), obj.is_type("TA")) for objects made before any snapshot. *)
 (*  Implementation-shaped (mode M): Dispatch_Engine::State keeps THREE function tables       *)
 (*            (m_functions: name -> shared pointer to an overload vector, m_function_objects *)
 (*            and m_boxed_functions: name -> own copy), snapshots copy the pointers, and     *)
